@@ -158,7 +158,10 @@ func genIncludeTreeWithFault(r vlib.Rnd) *vlib.Project {
 			}
 		}
 	}
-	bodies[faultFile].WriteString(fault())
+	faultAfterIncludes := vlib.Chance(r, 1, 2)
+	if !faultAfterIncludes {
+		bodies[faultFile].WriteString(fault())
+	}
 	// edges: file i (root = n) may include files with smaller index... keep acyclic by only including lower indices
 	included := map[int]bool{}
 	var addEdges func(from int)
@@ -193,6 +196,10 @@ func genIncludeTreeWithFault(r vlib.Rnd) *vlib.Project {
 	}
 	if faultFile < n && !included[faultFile] {
 		bodies[n].WriteString("INCLUDE " + names[faultFile] + nl)
+	}
+	if faultAfterIncludes {
+		// the faulty directive follows the (nested) INCLUDEs of its file
+		bodies[faultFile].WriteString(fault())
 	}
 	for i := 0; i < n; i++ {
 		p.Files[names[i]] = []byte(bodies[i].String())
